@@ -97,3 +97,39 @@ Definition c08_server_check (E : pyenv) (hidden watched : list str)
 (** dump gate: (config, params, observed) *)
 Definition c08_dump_check (E : pyenv) (c : config * val * res val) : bool :=
   let '(cfg, v, o) := c in jres_eqb (rpc_dump_params std_hfun fixed E cfg v) o.
+
+(** ** C07 / C20: direct dump / load on object graphs over generated class worlds.
+    (world index, Config.classes, value, observed dump, observed load of that dump) *)
+Definition c07_check (worlds : list pyenv) (c : nat * list (str * str) * val * res val * res val) : bool :=
+  let '(i, cl, v, d, l) := c in
+  match nth_error worlds i with
+  | None => false
+  | Some E =>
+      let cfg := mkCfg true "_serialize" "_ignore" [] cl in
+      jres_eqb (jc_dump_top std_hfun fixed E cfg None None None v) d &&
+      match d with
+      | Ok dv => jres_eqb (lres_val (jc_load_m fixed E cl dv)) l
+      | Raise _ => true
+      end
+  end.
+
+(** through a remote call: the value the callable receives / the caller gets, after the JSON text
+    round trip (the identity on the JSON values dump produces: codec hypothesis of C01) *)
+Definition c07_rpc_check (worlds : list pyenv) (c : nat * list (str * str) * val * res val) : bool :=
+  let '(i, cl, v, got) := c in
+  match nth_error worlds i with
+  | None => false
+  | Some E =>
+      let cfg := mkCfg true "_serialize" "_ignore" [] cl in
+      jres_eqb (do d <- rpc_dump_params std_hfun fixed E cfg v; lres_val (rpc_load fixed E cfg d)) got
+  end.
+
+(** ** C20: dump with handlers, ignore lists and configured names.
+    (world index, config, explicit serialize_method / ignore_attribute / ignore arguments, value, observed dump) *)
+Definition c20_check (worlds : list pyenv)
+           (c : nat * config * option str * option str * option (list val) * val * res val) : bool :=
+  let '(i, cfg, sm_arg, ia_arg, ign_arg, v, d) := c in
+  match nth_error worlds i with
+  | None => false
+  | Some E => jres_eqb (jc_dump_top std_hfun fixed E cfg sm_arg ia_arg ign_arg v) d
+  end.
